@@ -255,6 +255,12 @@ def execute(text):
     it = _IT
     it.environment = it.base_environment.newEnv()
     it.interpret(PRELUDE, "prelude")
+    import signal
+
+    def _alarm(signum, frame):
+        raise TimeoutError("no result within 20 s")
+    signal.signal(signal.SIGALRM, _alarm)
+    signal.alarm(20)                       # the model terminated: so must the program
     try:
         v = it.interpret(text, "prog")
         out = ("val", norm(absval.to_py(v)))
@@ -266,6 +272,8 @@ def execute(text):
         out = ("host", "RecursionError")
     except Exception as e:  # noqa: BLE001
         out = ("host", type(e).__name__ + ": " + str(e)[:80])
+    finally:
+        signal.alarm(0)
     try:
         log = norm(absval.to_py(it.interpret("LOG", "obs")))
     except Exception as e:  # noqa: BLE001
@@ -330,3 +338,45 @@ ASSUMPTIONS = [
     "the generated programs use ints, booleans, strings, lists, sets, maps, objects and closures; decimals and dates are not part of these families",
     "function values are compared by kind only",
 ]
+
+
+def check_random(run, flavour, n, label):
+    """seeded random programs: TLC (MachineRand) is the oracle, the real interpreter the subject"""
+    import json, os, random, tempfile
+    from . import proggen
+    rng = random.Random(run.seed * 7919 + {"scope": 1, "loop": 2, "err": 3}[flavour])
+    progs = proggen.programs(rng, flavour, n)
+    d = tempfile.mkdtemp(prefix="mrand-")
+    path = os.path.join(d, "progs.ndjson")
+    try:
+        with open(path, "w") as f:
+            for p in progs:
+                f.write(json.dumps(p) + "\n")
+        res = run_tlc("MachineRand", env={"PROG_FILE": path}, timeout=3400)
+    finally:
+        try:
+            os.remove(path)
+            os.rmdir(d)
+        except OSError:
+            pass
+    run.add_tlc(res, label)
+    seen = set()
+    m = 0
+    for rec in res.records("RUN"):
+        k = rec["id"][1]
+        if k in seen:
+            continue
+        seen.add(k)
+        if rec["out"]["t"] == "fuel":
+            run.drift("model-fuel-exhausted", ["r", k])
+            continue
+        rec["prog"] = progs[k - 1]
+        rec["id"] = ["r", flavour, k]
+        judge(run, rec)
+        m += 1
+        if m == 3:
+            run.sample({"id": rec["id"], "source": program_src(rec["prog"]), "model_outcome": rec["out"]["t"],
+                        "model_log": str([val_py(x) for x in rec["log"]])})
+    if len(seen) != len(progs):
+        raise MachineryError(f"MachineRand evaluated {len(seen)} of {len(progs)} programs")
+    return m
